@@ -100,7 +100,8 @@ Example C24_nonvacuous :
   dominates_all_topo 4 fr deps [0; 1; 2; 3]%nat = true /\
   length (all_topo_orders 4 deps) = 2%nat /\
   chunks_connected fr deps [0; 1; 2; 3]%nat = true /\
-  post_linearize 4 deps fr [0; 2; 1; 3]%nat = [0; 1; 2; 3]%nat /\
+  post_linearize 4 deps fr [0; 2; 1; 3]%nat = [0; 2; 1; 3]%nat /\
+  post_linearize 3 [(0, 2)]%nat [(1, 1); (5, 1); (3, 1)] [0; 2; 1]%nat = [1; 0; 2]%nat /\
   is_connected deps [1; 2]%nat = false.
 Proof. vm_compute. repeat split. Qed.
 
